@@ -637,25 +637,35 @@ Definition read_fstypes (content : bytes) : outcome (list bytes) :=
 
 Definition mem_bytes (x : bytes) (l : list bytes) : bool := existsb (beqb x) l.
 
-(* the loop over cext.disk_partitions(); "/dev/root" and "rootfs" consult the live /sys *)
-Fixpoint partitions_loop (all : bool) (fstypes : list bytes) (es : list ment) : outcome (list ment) :=
+(* the loop over cext.disk_partitions().  [root] is what RootFsDeviceFinder().find() answers (the real root device
+   looked up through <procfs>/partitions or /sys, None when the lookup fails or names a device without a node under
+   /dev): the device "/dev/root" or "rootfs" is replaced by it, and kept as it is when the lookup fails *)
+Definition is_root_spelling (device : bytes) : bool := beqb device (bs "/dev/root") || beqb device (bs "rootfs").
+Fixpoint partitions_loop (all : bool) (fstypes : list bytes) (root : option bytes) (es : list ment) : outcome (list ment) :=
   match es with
   | [] => Val []
   | e :: r =>
     let device := if beqb (m_dev e) (bs "none") then [] else m_dev e in
-    if beqb device (bs "/dev/root") || beqb device (bs "rootfs") then OutOfModel
-    else
-      do rest <- partitions_loop all fstypes r;
-      if negb all && (match device with [] => true | _ => false end || negb (mem_bytes (m_type e) fstypes))
-      then Val rest
-      else Val ({| m_dev := device; m_dir := m_dir e; m_type := m_type e; m_opts := m_opts e |} :: rest)
+    let device := if is_root_spelling device then (match root with Some p => p | None => device end) else device in
+    do rest <- partitions_loop all fstypes root r;
+    if negb all && (match device with [] => true | _ => false end || negb (mem_bytes (m_type e) fstypes))
+    then Val rest
+    else Val ({| m_dev := device; m_dir := m_dir e; m_type := m_type e; m_opts := m_opts e |} :: rest)
   end.
 
-Definition disk_partitions_gen (fixed : bool) (all : bool) (filesystems mounts : bytes) : outcome (list ment) :=
+(* the same as a function of ONE entry *)
+Definition part_entry (all : bool) (fstypes : list bytes) (root : option bytes) (e : ment) : option ment :=
+  let device := if beqb (m_dev e) (bs "none") then [] else m_dev e in
+  let device := if is_root_spelling device then (match root with Some p => p | None => device end) else device in
+  if negb all && (match device with [] => true | _ => false end || negb (mem_bytes (m_type e) fstypes))
+  then None
+  else Some {| m_dev := device; m_dir := m_dir e; m_type := m_type e; m_opts := m_opts e |}.
+
+Definition disk_partitions_gen (fixed : bool) (all : bool) (root : option bytes) (filesystems mounts : bytes) : outcome (list ment) :=
   do fstypes <- (if all then Val [] else read_fstypes filesystems);
   do es <- getmntent_all mounts;
   do rows <- c_disk_partitions fixed es;
-  partitions_loop all fstypes rows.
+  partitions_loop all fstypes root rows.
 Definition disk_partitions := disk_partitions_gen true.
 Definition disk_partitions_legacy := disk_partitions_gen false.
 
